@@ -41,6 +41,11 @@ U = ["a", "A", "b.txt", "B.TXT", "a/b.txt", "a\\b.txt", "A/b.txt", "a/B.TXT", ".
      "d1/g.bin", "d1/missing.bin", "missing.bin"]
 FILES = [("d1", "F.bin"), ("d1", "f.bin"), ("d2", "f.bin"), (None, "d1/F.bin"), ("d1/", "g.bin"), ("d1", "missing.bin"),
          ("", "d2\\f.bin"), ("d1\\", "F.bin"), ("", "a/b.txt"), ("d1/../d2", "f.bin")]
+# (directory, file name) splits for mju_openResource / mj_containsFileVFS: directories with a trailing separator of
+# either kind, without one, with ./ components; most concatenations are names of U, several share a lower-cased base name
+SPLITS = [("a/", "b.txt"), ("a\\", "b.txt"), ("a", "b.txt"), ("a/", "B.TXT"), ("a\\", "B.TXT"), ("A/", "b.txt"), ("A\\", "b.txt"),
+          ("x/", "A"), ("x\\", "A"), ("./", "a"), ("a/./", "b.txt"), ("c/../a/", "b.txt"), ("a/b.txt/", "c"), ("a/b.txt", "c"),
+          ("d1/", "F.bin"), ("d1\\", "f.bin"), ("d1/", "f.bin"), ("d2/", "f.bin"), ("d2\\", "f.bin"), ("d1/", "g.bin"), ("zz/", "b.txt")]
 BYTES = [b"", b"A", b"hi", b"\0", b"\xff\0\n", b"zz", b"1", b"2"]
 
 
@@ -62,8 +67,11 @@ def gen_op(rng):
     if r < 0.72:
         return ("C", rng.choice(U))
     if r < 0.80:
-        return ("E",) + (rng.choice(FILES) if rng.random() < 0.6 else (rng.choice(["", "zz", None]), rng.choice(U)))
+        q = rng.random()
+        return ("E",) + (rng.choice(FILES) if q < 0.4 else rng.choice(SPLITS) if q < 0.7 else (rng.choice(["", "zz", None]), rng.choice(U)))
     if r < 0.98:
+        if rng.random() < 0.5:
+            return ("O",) + rng.choice(SPLITS)
         return ("O", rng.choice(["", "", "zz", None, "a", "d1"]), rng.choice(U))
     return ("Z",)
 
@@ -185,6 +193,12 @@ def oracle(ops, outs, disk_probe):
                 errs.append((k, "observer", "containsBuffer not repeatable"))
             if c == "O" and o[1] == "" and r[1] != B[U.index(o[2])][1]:
                 errs.append((k, "observer", "open/read not repeatable"))
+            if c == "O" and o[1]:
+                # the same file spelled as (directory, file name): directory + [separator] + name
+                whole = o[1] + o[2] if o[1][-1] in "/\\" else o[1] + "/" + o[2]
+                if whole in U and B[U.index(whole)][0] == 1 and r[1] != B[U.index(whole)][1]:
+                    errs.append((k, "read_split", "present file %r read as (dir=%r, name=%r) gives %r but read under its whole name gives %r"
+                                 % (whole, o[1], o[2], r[1], B[U.index(whole)][1])))
         elif c == "Z":
             if A != disk_probe:
                 errs.append((k, "reinit", "a fresh VFS is not empty"))
@@ -267,10 +281,14 @@ def run(ctx):
         cases.append(REFUTED_WITNESS)
         cases.append([("F", "d1", "F.bin"), ("F", "d1", "f.bin"), ("E", "d1", "F.BIN"), ("O", "zz", "F.BIN"), ("D", "d1/F.bin"), ("O", "d1", "F.bin"), ("D", "F.bin")])
         cases.append([("B", "x/A", b"1"), ("O", "zz", "a"), ("B", "a", b"2"), ("O", "", "a/b.txt"), ("D", "A"), ("D", "a")])
+        for first, second in ((("B", "a/b.txt", b"hi"), ("B", "A/b.txt", b"zz")), (("B", "A/b.txt", b"zz"), ("B", "a/b.txt", b"hi"))):
+            cases.append([first, second, ("O", "a/", "b.txt"), ("O", "a\\", "b.txt"), ("O", "A/", "b.txt"), ("O", "a", "b.txt"),
+                          ("E", "a/", "b.txt"), ("O", "zz/", "b.txt")])
+        cases.append([("F", "d1/", "F.bin"), ("B", "d1/f.bin", b"q"), ("O", "d1/", "f.bin"), ("O", "d1\\", "f.bin"), ("O", "d1/", "F.bin")])
         for n in range(1, 4):
             for _ in range(30 if not thorough else 150):
                 cases.append([gen_op(rng) for _ in range(n)])
-        for _ in range(260 if not thorough else 1800):
+        for _ in range(260 if not thorough else 1000):
             cases.append([gen_op(rng) for _ in range(rng.randrange(4, 30))])
     rc, res, err = run_cases(ctx, exe, disk, cases)
     _, dres, _ = run_cases(ctx, exe, disk, [[("C", "a")]])
@@ -306,7 +324,7 @@ def run(ctx):
             site = "mj_containsBufferVFS" if kind == "contains" else "VFS"
             ctx.violation("impl_violation", {"ops": jsonable(small)}, expected="property C39 on the implementation's own output",
                           observed="; ".join("op %d: %s" % (e[0], e[2]) for e in e2[:3]),
-                          theorem="C39_contains_after_add" if kind == "contains" else "C39_present_iff / C39_repeated_add / C39_delete_absent / C39_read_present",
+                          theorem="C39_contains_after_add" if kind == "contains" else "C39_read_present" if kind in ("read", "read_split") else "C39_present_iff / C39_repeated_add / C39_delete_absent / C39_read_present",
                           signature={"site": site, "kind": "raw name lookup" if kind == "contains" else kind})
     # correspondence inside Coq
     coq_cases = [coq_case(ops, res[k]) for k, ops in enumerate(cases)]
@@ -347,7 +365,8 @@ def run(ctx):
     ctx.cov["probes_compared"] = nops * len(U)
     ctx.cov["distinct_nontrivial"] = len(nontriv)
     ctx.cov["rule"] = ("random sequences of 1..29 public-API calls over %d names (case variants, / and \\ separators, ., .., //, "
-                       "nested and on-disk names) and %d (directory, file) pairs; after EVERY call the return value and a probe of every "
+                       "nested and on-disk names), %d (directory, file) pairs for addFile and (directory, name) splits "
+                       "for open/containsFile (trailing separators of both kinds, colliding lower-cased base names); after EVERY call the return value and a probe of every "
                        "name (containsBuffer + open/read) are compared with the Coq model inside Coq; non-trivial = distinct sequence with a "
                        "repeated-name add, a successful delete and a successful read" % (len(U), len(FILES)))
     ctx.cov["samples"] = [{"ops": jsonable(c)} for c in (cases[0], cases[min(len(cases) - 1, 100)], cases[-1])]
